@@ -47,6 +47,28 @@ ExchVals(bd, t, c) ==
                         IN  {Max2(0, vict - v) : v \in ExchVals(nb, t, Other(c))}
                    : a \in picks}
 
+\* The same without the reduction (every equally valued least attacker is tried).  Trace_See compares the two on every
+\* capture of the families whose tie sets are small (IOEnv.SEE_FULL = "1"): the argument for Picks is checked, not trusted.
+RECURSIVE ExchValsFull(_, _, _)
+ExchValsFull(bd, t, c) ==
+    LET att == AttackersOf(bd, t, c)
+    IN  IF att = {} THEN {0}
+        ELSE LET minv  == MinOver({Val(KindOf(At(bd, a))) : a \in att})
+                 cands == {a \in att : Val(KindOf(At(bd, a))) = minv}
+                 vict  == Val(KindOf(At(bd, t)))
+             IN  UNION {
+                   IF KindOf(At(bd, a)) = King /\ AttackersOf(bd, t, Other(c)) # {}
+                   THEN {0}
+                   ELSE LET nb == [bd EXCEPT ![a + 1] = 0, ![t + 1] = bd[a + 1]]
+                        IN  {Max2(0, vict - v) : v \in ExchValsFull(nb, t, Other(c))}
+                   : a \in cands}
+SeeValuesFull(pos, m) ==
+    LET b  == pos.board
+        c  == pos.stm
+        v0 == Val(KindOf(At(b, m.to))) + (IF m.promo # 0 THEN Val(m.promo) - Val(Pawn) ELSE 0)
+        nb == BoardAfter(b, m, c)
+    IN  {v0 - e : e \in ExchValsFull(nb, m.to, Other(c))}
+
 \* m: a capture (kind 1), possibly promoting.  Set of possible exchange values for the mover.
 SeeValues(pos, m) ==
     LET b  == pos.board
